@@ -2,6 +2,7 @@ package main
 
 import (
 	"fmt"
+	"os"
 	"strings"
 
 	flags "github.com/jessevdk/go-flags"
@@ -53,8 +54,29 @@ func c06Run(c *Ctx) {
 		mask = (1 << uint(len(req))) - 1 // all supplied: the positional constraints become visible
 	}
 	supplied := 0
+	viaEnv := 0
 	for i, o := range req {
 		if mask&(1<<uint(i)) != 0 {
+			if !o.T.IsFunc() && !o.T.IsFlag() && o.T.W != WMap && sc.Exp.Seen[o] == 0 && r.Chance(1, 4) {
+				// a required option is also satisfied by its environment variable - for a string option even by
+				// a variable that is set to the empty text
+				o.Env = fmt.Sprintf("VH_C06_%d_%d", c.K, o.ID)
+				v := GenValueText(r, o)
+				if o.T.K == KString && len(o.Choices) == 0 && (o.T.W == WScalar || o.T.W == WPtr) && r.Bool() {
+					v = ""
+				}
+				if !strings.ContainsRune(v, 0) {
+					o.EnvDelim = ""
+					o.EnvSet = &v
+					key := d.FullEnv(o)
+					os.Setenv(key, v)
+					c.Defer(func() { os.Unsetenv(key) })
+					supplied++
+					viaEnv++
+					continue
+				}
+				o.Env = ""
+			}
 			if sc.SupplyOption(r, o, true) {
 				supplied++
 			}
@@ -107,7 +129,11 @@ func c06Run(c *Ctx) {
 			c.Violate("all-met:"+sig, "%s", msg)
 			return
 		}
-		c.Held(fmt.Sprintf("met/req%d/depth%d", len(req), sc.Final.Depth), fmt.Sprintf("supplied=%d pos=%v", supplied, sc.Final.Pos != nil))
+		cell := fmt.Sprintf("met/req%d/depth%d", len(req), sc.Final.Depth)
+		if viaEnv > 0 {
+			cell += "/via-env"
+		}
+		c.Held(cell, fmt.Sprintf("supplied=%d pos=%v", supplied, sc.Final.Pos != nil))
 		return
 	}
 	if o.FErr == nil || o.FErr.Type != flags.ErrRequired {
